@@ -26,7 +26,7 @@ func init() {
 var profC11 = Profile{
 	MaxBars: 3, MinBars: 1, MaxSteps: 40, Refresh: []string{"autoinj", "autoinj", "manual", "none", "autort"}, QLens: []int{-1},
 	Pop: 15, Queue: 10, Rm: 20, AbortW: 5, TicksW: 5, Gets: 6, PostTerm: true, PostTermWait: true, Cancel: 20,
-	Fillers: []string{"tag"}, LateAdd: true, OnCompleteFill: 20,
+	Fillers: []string{"tag"}, LateAdd: true, OnCompleteFill: 20, Faults: 12,
 }
 
 func genC11(t *rapid.T) interface{} {
@@ -120,6 +120,15 @@ func runC11(ci interface{}) Result {
 	}
 	// after Wait exactly one of the two holds, and it is the first terminal event of the program
 	end, cancelled, ok := engine.EndState(sc)
+	for _, e := range tr.Events {
+		if e.Point == "client.fillerr" || e.Point == "client.exterr" {
+			// a render error cancels the container at a point the program does not
+			// determine: only the history invariants above apply
+			ok = false
+			r.Classes = append(r.Classes, "render-fault")
+			break
+		}
+	}
 	postMut, postReads := false, 0
 	for _, g := range tr.Final {
 		if g.Completed == g.Aborted {
